@@ -59,6 +59,52 @@ def _m1():
     return cfg
 
 
+def _m7():
+    """World B: cell buckets removed / inserted, a server moved below a
+    bucket that is outside the cell, presence loss, with a small alphabet and
+    deeper histories; plus late watch delivery."""
+    cfg = mastercfg.m1()
+    cfg['idgroups'] = {}
+    cfg['buckets'] = [('rack:0', None), ('rack:1', None), ('rack:2', None)]
+    cfg['out_of_cell'] = ('rack:2',)
+    cfg['cellmonitors'] = [cellmon.mon_c01]
+    cfg['monitors'] = [mastermon.mon_c01_zk]
+    cfg['templates'] = {
+        'sm': {'memory': '3M', 'cpu': '3%', 'disk': '3M', 'affinity': 'a',
+               'data_retention_timeout': '30s'},
+        'hi': {'memory': '10M', 'cpu': '10%', 'disk': '10M', 'affinity': 'c',
+               'priority': 100},
+    }
+    cfg['allow_nocycle'] = False
+    cfg['events'] = mastercfg.ev(
+        ('app+', 'sm'), ('app+', 'hi'), ('app-', 0),
+        ('pres-', 's0'), ('pres+', 's0', 0),
+        ('cell-', 'rack:0'), ('cell+', 'rack:0'), ('cell+', 'rack:2'),
+        ('srvp', 's0', 'rack:2'), ('srvp', 's0', 'rack:0'),
+        ('noop',), ('restart',),
+    )
+    return cfg
+
+
+def _late():
+    cfg = mastercfg.m1()
+    cfg['idgroups'] = {}
+    cfg['cellmonitors'] = [cellmon.mon_c01]
+    cfg['monitors'] = [mastermon.mon_c01_zk]
+    cfg['allow_late'] = True
+    cfg['allow_nocycle'] = False
+    cfg['templates'] = {
+        'sm': {'memory': '3M', 'cpu': '3%', 'disk': '3M', 'affinity': 'a'},
+        'hi': {'memory': '10M', 'cpu': '10%', 'disk': '10M', 'affinity': 'c',
+               'priority': 100},
+    }
+    cfg['events'] = mastercfg.ev(
+        ('app+', 'sm'), ('app+', 'hi'), ('app-', 0), ('app-', 1),
+        ('prio', 0, 100), ('prio', 1, 1), ('noop',),
+    )
+    return cfg
+
+
 def _m3():
     """World B with terabyte-sized servers whose declared capacity changes by
     a few megabytes (relative change < 1e-5): large values, tiny deltas."""
@@ -95,10 +141,14 @@ def configs(ctx):
         return [('K1', _k1(), 4, 1, _cellprop.CellSpec, 2.0),
                 ('K2', _k2(), 3, 1, _cellprop.CellSpec, 1.0),
                 ('M1', _m1(), 3, 0, _masterprop.MasterSpec, 1.0),
-                ('M3', _m3(), 5, 0, _masterprop.MasterSpec, 1.0)]
+                ('M3', _m3(), 5, 0, _masterprop.MasterSpec, 1.0),
+                ('M7', _m7(), 5, 0, _masterprop.MasterSpec, 1.0),
+                ('M1-late', _late(), 4, 1, _masterprop.MasterSpec, 1.0)]
     return [('K1', _k1(), 6, 2), ('K2', _k2(), 6, 1),
             ('M1', _m1(), 5, 1, _masterprop.MasterSpec),
-            ('M3', _m3(), 9, 0, _masterprop.MasterSpec)]
+            ('M3', _m3(), 9, 0, _masterprop.MasterSpec),
+            ('M7', _m7(), 7, 0, _masterprop.MasterSpec),
+            ('M1-late', _late(), 6, 1, _masterprop.MasterSpec)]
 
 
 RULE = ('BFS over histories of cell events x {cycle, no cycle}; a transition '
